@@ -60,9 +60,10 @@ def ncc_landscape_with_crop(
     max_shifts: tuple[float, ...],
     backend: Backend,
 ) -> AnyArray[np.float32]:
-    response = ncc_landscape(
-        img0, img1, max_shifts, backend=backend, constant_values=img0.mean()
-    )
+    # The response does not depend on a constant added to img0, but its float32 window
+    # sums lose all precision if the offset is large compared to the contrast. Remove
+    # the mean first (the padding value, the mean, becomes zero).
+    response = ncc_landscape(img0 - img0.mean(), img1, max_shifts, backend=backend)
     pad_width_eff = tuple(
         (s - int(m) * 2 - 1) // 2 for m, s in zip(max_shifts, response.shape)
     )
@@ -94,13 +95,10 @@ def subpixel_ncc(
 ) -> tuple[NDArray[np.float32], float]:
     if isinstance(max_shifts, (int, float)):
         max_shifts = (max_shifts,) * img0.ndim
-    response = ncc_landscape(
-        img0,
-        img1,
-        max_shifts,
-        backend=backend,
-        constant_values=img0.mean(),
-    )
+    # The response does not depend on a constant added to img0, but its float32 window
+    # sums lose all precision if the offset is large compared to the contrast. Remove
+    # the mean first (the padding value, the mean, becomes zero).
+    response = ncc_landscape(img0 - img0.mean(), img1, max_shifts, backend=backend)
     # The coarse (integer) peak is searched up to ceil(max_shifts): a displacement in the
     # fractional rim of the range is nearest to the integer just outside of it. The
     # sub-pixel refinement restricts the result to max_shifts.
